@@ -357,6 +357,25 @@ def gen_case(rng, additive_only=False):
     return {"pre": pre, "prog": prog}
 
 
+def boost_removal_after_write(case, seed, k):
+    """Raise the weight of "a dataset written (put / ingest) inside a block is removed again inside the SAME block, which then
+    fails" -- the mix in which an undo action finds its artifact gone (seed C07c).  Decided by a random generator derived from
+    (seed, k) only, so the main stream -- every other program of every seed -- stays what it was.  In 35 % of the programs whose
+    top-level block writes some slot, `purge d` of such a slot and a final `fail` are appended to that block."""
+    import random
+    rng2 = random.Random(f"C07-boost:{seed}:{k}")
+    prog = case["prog"]
+    if prog[0] != "block" or rng2.random() >= 0.35:
+        return case
+    written = [o[2] if o[0] == "ingest" else o[1] for o in
+               (q[1:] for q in _all_ops(prog)) if o[0] in ("put", "ingest")]
+    if not written:
+        return case
+    d = rng2.choice(written)
+    body = [q for q in prog[1] if q != ["fail"]] + [["op", "purge", d], ["fail"]]
+    return {"pre": case["pre"], "prog": ["block", body]}
+
+
 # =================================================================================================
 # observations -> vectors
 # =================================================================================================
@@ -586,7 +605,8 @@ def nontrivial_rule(case, res):
 
 # =================================================================================================
 def execute(ctx: Ctx, cases, flavours_of, timeout=1500):
-    payloads = [{"cases": [dict(c, flavours=flavours_of(i), positions="all", follow=[["op", "emptytrash"]])]} for i, c in enumerate(cases)]
+    payloads = [{"cases": [dict(c, flavours=flavours_of(i), positions=c.get("positions", "all"), follow=[["op", "emptytrash"]])]}
+                for i, c in enumerate(cases)]
     res = parallel_workers("c07_impl", "run_cases", payloads, timeout=timeout)
     out = []
     for c, (status, r) in zip(cases, res):
@@ -636,7 +656,7 @@ def run(ctx: Ctx):
     cases, origins = [], []
     for f in sorted(glob.glob(str(VERIF / "corpus" / "C07" / "*.json"))):
         for j in json.load(open(f)):
-            cases.append({"pre": j["pre"], "prog": j["prog"]})
+            cases.append(dict({"pre": j["pre"], "prog": j["prog"]}, **({"positions": j["positions"]} if "positions" in j else {})))
             origins.append("corpus/" + os.path.basename(f) + ":" + j.get("name", ""))
     ncorpus = len(cases)
     if ctx.replay:
@@ -652,9 +672,9 @@ def run(ctx: Ctx):
                 cases.append(c)
                 origins.append(f"seed{ctx.seed}/{k}")
     else:
-        n = 8 if ctx.quick else 100      # 8 (was 12): the corpus grew from 10 to 15 programs (removals, transfer, import, seed-4 case); wall time unchanged
+        n = 6 if ctx.quick else 100      # 6 (was 12): the corpus grew from 10 to 19 programs; wall time unchanged
         for k in range(n):
-            cases.append(gen_case(ctx.rng, additive_only=(k % 4 == 0)))
+            cases.append(boost_removal_after_write(gen_case(ctx.rng, additive_only=(k % 4 == 0)), ctx.seed, k))
             origins.append(f"seed{ctx.seed}/{k}")
 
     def flav(i):
@@ -672,6 +692,8 @@ def run(ctx: Ctx):
         ctx.hist("depth", depth(c["prog"]))
         for o in ops_in(c["prog"]):
             ctx.hist("ops", o)
+        if c.get("positions", "all") != "all":
+            continue          # restricted fault positions (corpus entries with "positions"): oracle only, sequences not comparable
         for fl, lit, seq in coq_cases_of(c, r):
             coq.append(lit)
             meta.append((c, r, org, fl, seq))
